@@ -132,6 +132,8 @@ def schedule_specs(
     meta=True,
     default_names=True,  # leave "name" out where the operation name is still free
     max_ops=4,
+    p_parallel=45,  # per cent of the elements that are parallel elements
+    op_suffix="",  # appended to generated operation names (keeps them unique across several schedules of one track)
 ):
     # ---- operation pool
     pool = []
@@ -145,9 +147,9 @@ def schedule_specs(
             string_types.add(typ)
             pool.append({"name": typ, "type": typ, "params": {}, "style": "string"})
         else:
-            pool.append({"name": f"{draw(st.sampled_from(_OP_STEMS))}-{i}", "type": typ, "params": draw(_op_params(typ)), "style": style})
+            pool.append({"name": f"{draw(st.sampled_from(_OP_STEMS))}-{i}{op_suffix}", "type": typ, "params": draw(_op_params(typ)), "style": style})
 
-    state = {"n": 0, "default_named": set()}
+    state = {"n": 0, "default_named": set(), "names": []}
 
     def timing(ctx, top_level):
         """ctx: None or {"mode": "iter"|"time", "defaults": {...}} of the enclosing parallel element"""
@@ -199,7 +201,14 @@ def schedule_specs(
             state["default_named"].add(op["name"])
         else:
             state["n"] += 1
-            el["name"] = f"{draw(st.sampled_from(_TASK_STEMS))}{state['n']}"
+            related = draw(st.integers(0, 5)) if state["names"] else 0
+            if related == 4 and state["names"][-1] + "-b" not in state["names"]:
+                el["name"] = state["names"][-1] + "-b"  # an earlier name is a proper prefix of this one
+            elif related == 5 and state["names"][-1].swapcase() not in state["names"] and state["names"][-1].swapcase() != state["names"][-1]:
+                el["name"] = state["names"][-1].swapcase()  # differs from an earlier name by case only
+            else:
+                el["name"] = f"{draw(st.sampled_from(_TASK_STEMS))}{state['n']}"
+            state["names"].append(el["name"])
         tag_kind = draw(st.sampled_from(["none", "none", "str", "list", "list"])) if tags else "none"
         if tag_kind == "str":
             el["tags"] = draw(st.sampled_from(tags))
@@ -275,7 +284,7 @@ def schedule_specs(
 
     spec = []
     for _ in range(draw(st.integers(min_elements, max_elements))):
-        if parallel and draw(st.integers(0, 99)) < 45:
+        if parallel and (p_parallel >= 100 or draw(st.integers(0, 99)) < p_parallel):
             spec.append(parallel_element())
         else:
             spec.append(leaf(None, True))
@@ -463,6 +472,12 @@ def filter_specs(draw, spec):
     absent = ["nosuch-task", "type:nosuch-type", "tag:nosuch-tag"] + [f"type:{t}" for t in OP_TYPES if t not in types] + [
         f"tag:{t}" for t in TAGS if t not in tags
     ]
+    # near misses: filters are case-sensitive and match whole names / types / tags
+    for near in (names[0].swapcase(), names[0][:-1], names[-1] + "-b", f"type:{types[0].upper()}", f"type:{types[0][:-1]}") + tuple(
+        f"tag:{t.upper()}" for t in tags[:1]
+    ):
+        if near and near not in names and near not in absent and near not in present:
+            absent.append(near)
     parallels = [el for el in m if el["kind"] == "parallel"]
     kinds = ["generic", "generic", "generic", "absent-only"]
     if parallels:
@@ -470,7 +485,7 @@ def filter_specs(draw, spec):
     kind = draw(st.sampled_from(kinds))
     mode = draw(st.sampled_from(["exclude", "include"]))
     if kind == "generic":
-        filters = draw(st.lists(st.sampled_from(present + absent[:3]), min_size=1, max_size=3, unique=True))
+        filters = draw(st.lists(st.sampled_from(present + absent[:3] + absent[-3:]), min_size=1, max_size=3, unique=True))
     elif kind == "absent-only":
         filters = draw(st.lists(st.sampled_from(absent), min_size=1, max_size=2, unique=True))
     elif kind == "all-of-parallel":
